@@ -105,9 +105,13 @@ func (p *c03) Gen(seed uint64, i int, tier string) (any, bool) {
 		useProducer, useTransport, useReplies = false, false, false // fault-free control
 		sc.FaultFree = true
 		if r.Chance(1, 2) {
-			// a healthy but slow server: every reply takes a twelfth of the client's timeout, so
+			// a healthy but slow server (or a healthy producer that pauses mid-content for 50..80 % of the timeout): every reply takes a twelfth of the client's timeout, so
 			// each step is well inside it while a batch as a whole is not
 			sc.Server.ReplyDelayNs = int64(sc.Client.TimeoutMs) * int64(time.Millisecond) / 12
+		} else if i%32 == 0 {
+			// a healthy but slow producer: half-way through its content it waits for 50..80 %
+			// of the client's timeout
+			sc.SlowProducerMs = sc.Client.TimeoutMs * (50 + int(sc.Sched%31)) / 100
 		}
 	}
 	if useProducer {
@@ -329,6 +333,9 @@ func (p *c03) Exec(t *testing.T, scAny any) Outcome {
 	commits := map[string]int{}      // commits during the first operation
 	recommits := map[string]int{}    // commits during the retry
 	resendFrom := int(^uint(0) >> 1) // kernel step at which the retry started
+	if run.SlowProducerFired {
+		out.stat("probe.slow-producer-paused-mid-content", 1)
+	}
 	if run.ResendCall != nil {
 		resendFrom = run.ResendCall.StartStep
 		out.stat("probe.failed-messages-resent", len(run.Resent))
